@@ -73,11 +73,18 @@ type mwEv struct {
 
 	// Adv is a time step: "ivl/2", "ivl", "ivl+1ns" or "long".
 	Adv string `json:"advance,omitempty"`
+
+	// TCP makes the client's connection a plain-DNS TCP one instead of UDP.
+	TCP bool `json:"tcp,omitempty"`
 }
 
 func (e mwEv) String() (s string) {
 	if e.Adv != "" {
 		return "+" + e.Adv
+	}
+
+	if e.TCP {
+		return fmt.Sprintf("%s/%s/%d/tcp", e.Client, dns.Type(e.QType), e.Size)
 	}
 
 	return fmt.Sprintf("%s/%s/%d", e.Client, dns.Type(e.QType), e.Size)
@@ -140,12 +147,14 @@ type mwCase struct {
 	Trace  string `json:"trace,omitempty"`
 }
 
-func mwTrace(events []int) (s string) {
+func mwTrace(events []int) (s string) { return mwTraceOn(mwAlphabet, events) }
+
+func mwTraceOn(alphabet []mwEv, events []int) (s string) {
 	for i, ei := range events {
 		if i > 0 {
 			s += " "
 		}
-		s += mwAlphabet[ei].String()
+		s += alphabet[ei].String()
 	}
 
 	return s
@@ -284,11 +293,16 @@ var mwT0 = time.Date(2000, 1, 1, 0, 0, 0, 0, time.UTC)
 
 // mwRun runs one history.
 func mwRun(r *vrt.Run, c mwCase) (fs []vrt.Finding, digest string) {
+	return mwRunOn(r, c, mwAlphabet)
+}
+
+// mwRunOn runs one history whose events index alphabet.
+func mwRunOn(r *vrt.Run, c mwCase, alphabet []mwEv) (fs []vrt.Finding, digest string) {
 	w := mwNewWorld(c.Cfg)
 	defer ratelimit.VerifStop(w.backoff)
 	ctx := context.Background()
 	for step, ei := range c.Events {
-		e := mwAlphabet[ei]
+		e := alphabet[ei]
 		switch e.Adv {
 		case "":
 		case "long":
@@ -319,6 +333,7 @@ func mwRun(r *vrt.Run, c mwCase) (fs []vrt.Finding, digest string) {
 		own := mwOwnLimit(cl)
 
 		// Reference verdict.
+		allow := false
 		var v c09ref.Verdict
 		which := "global"
 		switch {
@@ -333,7 +348,6 @@ func mwRun(r *vrt.Run, c mwCase) (fs []vrt.Finding, digest string) {
 				v = c09ref.Verdict{MayPass: true, Why: "below-limit"}
 			}
 		default:
-			allow := false
 			for _, p := range mwAllow {
 				allow = allow || p.Contains(cl.IP)
 			}
@@ -350,6 +364,10 @@ func mwRun(r *vrt.Run, c mwCase) (fs []vrt.Finding, digest string) {
 			local:  &net.UDPAddr{IP: net.IP{192, 0, 2, 53}, Port: 53},
 			remote: &net.UDPAddr{IP: cl.IP.AsSlice(), Port: 33333},
 		}
+		if e.TCP {
+			rw.local = &net.TCPAddr{IP: net.IP{192, 0, 2, 53}, Port: 53}
+			rw.remote = &net.TCPAddr{IP: cl.IP.AsSlice(), Port: 33333}
+		}
 		next := &mwNext{size: e.Size}
 		err := w.mw.serveWithRatelimiting(agd.ContextWithRequestInfo(ctx, ri), rw, req, ri, next)
 		r.Trans(1)
@@ -357,7 +375,7 @@ func mwRun(r *vrt.Run, c mwCase) (fs []vrt.Finding, digest string) {
 		desc := func() string {
 			return fmt.Sprintf("cfg %+v, history [%s]: step %d query %s (%s limit, reference reason %s) at virtual +%s: "+
 				"next handler calls=%d, responses written to the client=%d, err=%v",
-				c.Cfg, mwTrace(c.Events), step, e, which, v.Why, now.Sub(mwT0), next.calls, len(rw.writes), err)
+				c.Cfg, mwTraceOn(alphabet, c.Events), step, e, which, v.Why, now.Sub(mwT0), next.calls, len(rw.writes), err)
 		}
 		if err != nil {
 			return vrt.F("mw/error", "%s", desc()), ""
@@ -383,6 +401,9 @@ func mwRun(r *vrt.Run, c mwCase) (fs []vrt.Finding, digest string) {
 			key := "mw/passed-late/" + which + "/" + v.Why
 			if v.Why == "any-refused" {
 				key = "mw/any-not-refused/" + which + "-limited-client"
+				if allow {
+					key = "mw/any-not-refused/allowlisted-client"
+				}
 			}
 
 			return vrt.F(key, "%s; the statement demands a drop without any response\n   global state: %s", desc(),
@@ -527,6 +548,7 @@ func TestVerifC09MW(t *testing.T) {
 			}
 		}
 		mwWriterPart(r, expired)
+		mwANYPart(r, expired)
 	})
 	r.Finish()
 	os.Exit(0)
